@@ -43,6 +43,11 @@
 
 #include "utils_private.h"
 #include "scpi/utils.h"
+#include "scpi/verif.h"
+
+#ifdef SCPI_PARSER_VERIF
+scpi_verif_hook_t scpi_verif_hook = NULL;
+#endif
 
 static size_t patternSeparatorShortPos(const char * pattern, size_t len);
 static size_t patternSeparatorPos(const char * pattern, size_t len);
@@ -828,6 +833,7 @@ char * scpiheap_strndup(scpi_error_info_heap_t * heap, const char *s, size_t n) 
     } else {
         heap->data[heap->size - 1] = '\0';
     }
+    SCPI_VERIF_EV(NULL, SCPI_VE_HEAP_DUP, head, heap->wr, heap->count);
     return head;
 }
 
